@@ -41,13 +41,15 @@ func (e *C10) Floors(string) map[string]int {
 func c10RR(r *rand.Rand) corev1.ResourceRequirements {
 	out := corev1.ResourceRequirements{}
 	if r.Intn(2) == 0 {
-		out.Requests = corev1.ResourceList{"cpu": resource.MustParse([]string{"100m", "1", "2"}[r.Intn(3)])}
+		// valid but not canonical spellings too ("1000m" is served back as written for a setting,
+		// while the pod built from it comes back from the API server as "1")
+		out.Requests = corev1.ResourceList{"cpu": resource.MustParse([]string{"100m", "1", "2", "1000m", "0.5", "2000m"}[r.Intn(6)])}
 		if r.Intn(2) == 0 {
-			out.Requests["memory"] = resource.MustParse([]string{"64Mi", "1Gi"}[r.Intn(2)])
+			out.Requests["memory"] = resource.MustParse([]string{"64Mi", "1Gi", "1024Mi", "1.5Gi"}[r.Intn(4)])
 		}
 	}
 	if r.Intn(3) == 0 {
-		out.Limits = corev1.ResourceList{"cpu": resource.MustParse([]string{"500m", "4"}[r.Intn(2)])}
+		out.Limits = corev1.ResourceList{"cpu": resource.MustParse([]string{"500m", "4", "4000m", "0.5"}[r.Intn(4)])}
 	}
 	return out
 }
